@@ -39,7 +39,14 @@ contract(L + 'predict_cluster_labels', props=['C09', 'C01', 'C05', 'C06', 'C13',
                    "model.clusters[k].train_inverse.shape[1] == test_data.shape[1] and is_spd(model.clusters[k].train_inverse))"],
          # the two derived cache fields of the state given are refreshed (not labelling, membership or fitted statistics)
          assigns=['model.clusters[*].inverse_covariance', 'model.clusters[*].log_determinant'],
-         ghost={'cumulative_posts': True,
+         ghost={'native_ensures': [
+                    ("native:cost-is-assignment-plus-switching-cost-of-the-returned-labels",
+                     "result.label_assignment_cost == path_total(neg_ll_table(model, test_data), model.arguments.label_switching_cost, result.point_labels)"),
+                    ("native:labels-minimise-over-all-K^T-sequences",
+                     "len(model.clusters) ** test_data.shape[0] > 4000 or all(result.label_assignment_cost <= "
+                     "path_total(neg_ll_table(model, test_data), model.arguments.label_switching_cost, q) + 1e-7 "
+                     "for q in all_sequences(test_data.shape[0], len(model.clusters)))")],
+                'cumulative_posts': True,
                 'returns': dict(TABLE='label_assignment_cost', F='ghost_assign_point_cluster_labels_F',
                                 P='ghost_assign_point_cluster_labels_P', B='ghost_assign_point_cluster_labels_B', COST='cost'),
                 'return_kinds': dict(TABLE='arr2[real]', F='arr2[real]', P='arr2[int]', B='arr1[real]', COST='real'),
@@ -232,3 +239,6 @@ contract(ML + 'fit_stacked_data', props=['C09', 'C04', 'C06', 'C13', 'C14', 'C20
                         modifies=[]),
                 2: dict(inv=["len(labels) == num_data_points", "forall(0, i, lambda p: labels[p] == " + _CUR + "._point_labels[p])"],
                         modifies=['labels'])})
+
+specfn('neg_ll_table', native="lambda model, X: np.array([[-gauss_ll(X[p], c.stacked_data_mean, c.train_inverse, "
+       "float(np.linalg.slogdet(c.train_inverse)[1]), X.shape[1]) for c in model.clusters] for p in range(X.shape[0])])")
